@@ -5,6 +5,7 @@ CONSTANTS
   Vals = {0, 1, 2}
   MaxDepth = 8
   Extra = {}
+  DB = FALSE
   Dev = "none"
 VIEW MCView
 CONSTRAINT Depth
